@@ -37,6 +37,23 @@ C["C05"] = dict(engine="histmc", cat="model_checking", technique=HIST,
   text="All 8 sub-index configurations x every AddWithID/Add/Remove history up to the bound; in every state every query of the alphabet (vector x text x filter shape x k x fusion x aggregation) is compared with the composed oracle: model filter set, exact filtered k-NN, reference BM25 top-k, fusion rule, ranking.",
   note=NOTE + " Queries whose per-modality cut falls on a tie are skipped and counted; three ambiguous corners are accepted either way (listed in evidence assumptions).")
 
+DOM = "exhaustive enumeration of a bounded input lattice on the real functions (domainmc)"
+C["C07"] = dict(engine="histmc", cat="model_checking", technique=HIST + "; per state a differential round-trip oracle (source vs reloaded, lock-step continuation)",
+  text="For each of the eight kinds, every state reached by Add/Remove/Flush histories up to the bound (plus untrained/empty) is written, read into a fresh index through a counting reader over stream+sentinel, and compared: byte counts, exact consumption, removed ids absent, identical answers, identical behaviour under every further operation.",
+  note=NOTE + " For kinds holding a BM25 index, writing is compared with an explicitly flushed independent copy (WriteTo is specified to flush first and a flush legitimately changes BM25 statistics).")
+C["C16"] = dict(engine="domainmc", cat="fault_enumeration", technique="exhaustive enumeration of truncation points and mismatch pairs over every state reached by history BFS (domainmc over histmc states)",
+  text="Every strict prefix of the serialisation of every reached state of every kind is fed to a fresh receiver and must be rejected; the complete kind / one-parameter / version / magic mismatch matrix must be rejected; store segments with a truncated, empty or missing component file must contribute nothing.",
+  note=NOTE)
+C["C18"] = dict(engine="domainmc", cat="exploration", technique=DOM,
+  text="All vectors over a 15-value magnitude-spanning alphabet in dimensions 1-2 (7 values in d=3), all ordered pairs, all triples for the triangle inequality, structured d=64/512 families: every stated law is evaluated on every member.",
+  note="Exhaustive over the stated lattice only; tolerances 8*d*2^-23 relative to operand magnitudes; runs on the instrumented copy of /repo.")
+C["C19"] = dict(engine="domainmc", cat="exploration", technique=DOM,
+  text="All result lists up to length 3/4 over ids x scores incl. +-Inf/NaN with every permutation, every k and cutoff, all score lists up to length 5 for autocut, all pairs of 125 score maps for each fusion, all NaN-free lists for merge.",
+  note="Exhaustive over the stated lattice only; NaN propagation not judged; runs on the instrumented copy of /repo.")
+C["C20"] = dict(engine="domainmc", cat="exploration", technique=DOM + " + differential history check (train once vs twice)",
+  text="All training sequences over a small lattice x k x maxIter x metric for k-means; all 65536 half bit patterns and all adjacent-half midpoints (thorough: every float32 in the half normal range) for float16; level-boundary sweeps for int8; bit-exactness for float32.",
+  note="Exhaustive over the stated lattices only; runs on the instrumented copy of /repo.")
+
 NA = {
  "C15": "statistical claim over a continuous distribution (i.i.d. Gaussian data, every seed): no bounded enumerable space represents it; its structural causes are decided by C12/C13/C14/C20",
 }
